@@ -999,6 +999,17 @@ func (t *fnTrans) ret(in *ssa.Return) {
 		t.curUses = nil
 	}
 	t.funcTypeObligations(in)
+	// lock balance: a function returns holding exactly the locks it held when it was called (a path that returns with a mutex still
+	// locked - or unlocks one it never took - fails here)
+	for _, k := range sortedKeys(t.lockSites) {
+		ls := t.lockSites[k]
+		cur, ent := t.get(t.cur, ls[0]), t.get(t.entrySt, ls[0])
+		if cur == ent {
+			continue
+		}
+		t.oblige("lockdisc", "balance."+strings.TrimPrefix(ls[0], "LK_"), "the function returns holding the same locks as at its call ("+strings.TrimPrefix(ls[0], "LK_")+")",
+			fmt.Sprintf("(= (select %s %s) (select %s %s))", cur, ls[1], ent, ls[1]), in.Pos())
+	}
 	t.frame(in.Pos())
 }
 
